@@ -34,10 +34,12 @@ Definition core_call (c : call) : Prop := forall w, core3 (fst (exec w c)) w (wl
 
 Lemma core_neutral_call : forall c, core_call c -> core_neutral (ign (doc c)).
 Proof.
-  intros c Hc w k. unfold ign, doc, call1, crunk. norm. pose proof (Hc w) as H.
-  destruct k as [[|k]|]; norm.
-  - do 3 eexists. split; [reflexivity|apply core3_refl].
-  - destruct (exec w c) as [w' r]. do 3 eexists. split; [reflexivity|exact H].
+  intros c Hc w k. unfold ign, doc, call1, crunk. cbn [bind runk]. pose proof (Hc w) as H.
+  destruct (is_faultable c).
+  - destruct k as [[|k]|]; cbn [bind runk].
+    + do 3 eexists. split; [reflexivity|apply core3_refl].
+    + destruct (exec w c) as [w' r]. do 3 eexists. split; [reflexivity|exact H].
+    + destruct (exec w c) as [w' r]. do 3 eexists. split; [reflexivity|exact H].
   - destruct (exec w c) as [w' r]. do 3 eexists. split; [reflexivity|exact H].
 Qed.
 
@@ -86,6 +88,7 @@ Record alloc_post (r : res) (plan : list (name * nat)) (s s' : cstate_create) (w
   ap_pods : pods w' = pods w; ap_nodes : nodes w' = nodes w; ap_wls : wls w' = wls w; ap_conts : conts w' = conts w;
   ap_strict : strict_remove w' = strict_remove w; ap_script : script w' = script w;
   ap_plugs : plugs w' = alloc_eff r done (plugs w);
+  ap_out : out w' = out w;
 }.
 
 Lemma alloc_loop_spec : forall opi r plan s w k,
@@ -122,7 +125,7 @@ Proof.
            constructor; cbn [cs_alloc cs_plan cs_rtoken cs_ptokens]; try reflexivity; try congruence.
            exists rest. reflexivity.
         -- cbn [exec]. norm.
-           match goal with |- context [runk _ _ _ _ _ (alloc_loop opi r rest ?s1) ?w3 (Some k)] =>
+           match goal with |- context [runk _ _ _ _ _ _ (alloc_loop opi r rest ?s1) ?w3 (Some k)] =>
              destruct (IH s1 w3 (Some k) Hnd' (Hrest w3 eq_refl)) as [w' [k' [s' [e [done [H Hpost]]]]]] end.
            unfold crunk in H. rewrite H. exists w', k', s', e, ((n, cnt) :: done). split; [reflexivity|].
            destruct Hpost. constructor; auto.
@@ -131,7 +134,7 @@ Proof.
            ++ intros E. rewrite (ap_ok0 E). reflexivity.
     + cbn [exec]. unfold find_plug. rewrite Hp, Hfit. norm. rewrite rsum_repeat.
       cbn [exec]. norm. cbn [exec]. norm.
-      match goal with |- context [runk _ _ _ _ _ (alloc_loop opi r rest ?s1) ?w3 None] =>
+      match goal with |- context [runk _ _ _ _ _ _ (alloc_loop opi r rest ?s1) ?w3 None] =>
         destruct (IH s1 w3 None Hnd' (Hrest w3 eq_refl)) as [w' [k' [s' [e [done [H Hpost]]]]]] end.
       unfold crunk in H. rewrite H. exists w', k', s', e, ((n, cnt) :: done). split; [reflexivity|].
       destruct Hpost. constructor; auto.
@@ -216,6 +219,7 @@ Record cond_post (r : res) (plan : option (list (name * nat))) (s1 : cstate_crea
   cp_pods : pods w1 = pods w; cp_nodes : nodes w1 = nodes w; cp_wls : wls w1 = wls w; cp_conts : conts w1 = conts w;
   cp_strict : strict_remove w1 = strict_remove w; cp_script : script w1 = script w;
   cp_plugs : plugs w1 = alloc_eff r (cs_alloc s1) (plugs w);
+  cp_out : out w1 = out w;
   cp_prefix : match plan with Some dm => exists rest, dm = cs_alloc s1 ++ rest | None => cs_alloc s1 = [] end;
   cp_ok : e = None -> exists dm, plan = Some dm /\ cs_alloc s1 = dm /\ cs_plan s1 = dm;
   cp_fail : e <> None -> cs_alloc s1 = [] \/ k1 = None;
@@ -239,7 +243,7 @@ Proof.
         -- do 4 eexists. split; [reflexivity|]. constructor; auto; try discriminate.
         -- cbn [exec]. norm. destruct plan as [dm|].
            ++ destruct Hplan as [Hnd Hfe].
-              match goal with |- context [runk _ _ _ _ _ (alloc_loop opi r dm ?s0) ?w0 (Some k)] =>
+              match goal with |- context [runk _ _ _ _ _ _ (alloc_loop opi r dm ?s0) ?w0 (Some k)] =>
                 destruct (alloc_loop_spec opi r dm s0 w0 (Some k) Hnd (feasible_plugs w w0 r dm eq_refl Hfe)) as [w1 [k1 [s1 [e [done [H Hp]]]]]] end.
               unfold crunk in H. rewrite H. do 4 eexists. split; [reflexivity|]. destruct Hp.
               cbn [cs_alloc cs_plan cs_rtoken app pods nodes wls conts strict_remove script plugs set_wal] in *.
@@ -250,7 +254,7 @@ Proof.
            ++ do 4 eexists. split; [reflexivity|]. constructor; auto; try discriminate.
     + cbn [exec]. norm. cbn [exec]. norm. cbn [exec]. norm. destruct plan as [dm|].
       * destruct Hplan as [Hnd Hfe].
-        match goal with |- context [runk _ _ _ _ _ (alloc_loop opi r dm ?s0) ?w0 None] =>
+        match goal with |- context [runk _ _ _ _ _ _ (alloc_loop opi r dm ?s0) ?w0 None] =>
           destruct (alloc_loop_spec opi r dm s0 w0 None Hnd (feasible_plugs w w0 r dm eq_refl Hfe)) as [w1 [k1 [s1 [e [done [H Hp]]]]]] end.
         unfold crunk in H. rewrite H. do 4 eexists. split; [reflexivity|]. destruct Hp.
         cbn [cs_alloc cs_plan cs_rtoken app pods nodes wls conts strict_remove script plugs set_wal] in *.
